@@ -196,7 +196,7 @@ def error_mapping(cx):
     cx.check(ok and bool(nonood), "apply_snapshot:accept", "an up-to-date snapshot is applied")
 
 
-@obligation("MEMSTORE.mutation_guards", ["C19"], floor=4, kind="guard + value shape",
+@obligation("MEMSTORE.mutation_guards", ["C19", "C02", "C06"], floor=4, kind="guard + value shape",
             why="appends must not leave gaps or overwrite compacted indexes; compaction must drop exactly the prefix")
 def mutation_guards(cx):
     ap = cx.fn("MemStorageCore::append")
@@ -251,6 +251,13 @@ def mutation_guards(cx):
     cv = [a.expr_rvalue(s.data["stmt"]["rv"], s.at) for s, fk, pl in cx.prog.direct_writes(asf.key) if fk == "HardState.commit" and "stmt" in s.data]
     okc = len(cv) == 1 and is_f(cv[0], "SnapshotMetadata.index")
     cx.check(okc, "apply_snapshot:commit", "apply_snapshot: hard_state.commit := the snapshot's index exactly (the entries it may have pointed into are gone) (found %s)" % [show(v) for v in cv])
+    tv = [a.expr_rvalue(s.data["stmt"]["rv"], s.at) for s, fk, pl in cx.prog.direct_writes(asf.key) if fk == "HardState.term" and "stmt" in s.data]
+    from ..idioms import as_max
+    okt = True
+    for v in tv:
+        mx = as_max(v)
+        okt = okt and mx is not None and any(is_f(x, "HardState.term") for x in mx) and any(is_f(x, "SnapshotMetadata.term") for x in mx) and len(mx) == 2
+    cx.check(okt, "apply_snapshot:term", "apply_snapshot never lowers the stored term: hard_state.term := max(hard_state.term, snapshot term) (found %s)" % [show(v) for v in tv])
     mv = [a.expr_rvalue(s.data["stmt"]["rv"], s.at) for s, fk, pl in cx.prog.direct_writes(asf.key) if fk == "MemStorageCore.snapshot_metadata" and "stmt" in s.data]
     okm = len(mv) == 1 and (mv[0][0] in ("local", "call")) 
     cx.check(okm, "apply_snapshot:meta", "apply_snapshot stores the snapshot's metadata as the new snapshot point")
